@@ -96,7 +96,8 @@ pub fn fz_open(data: &[u8], info: &mut FuzzInfo) -> Option<FuzzFailure> {
     let tag = Bytes(take(&mut u, 18));
     let aad = Bytes(take(&mut u, 40));
     let ct = Bytes(u.take_rest().to_vec());
-    let c = c13::Case::Receiver { sess, enc, pk_s, ct, aad, tag };
+    let pos = if s1 & 0x10 != 0 && enc.is_none() && pk_s.is_none() { Some(u64::MAX - (s0 % 3) as u64) } else { None };
+    let c = c13::Case::Receiver { sess, enc, pk_s, ct, aad, tag, pos };
     run(&c13::P, &c, info)
 }
 
@@ -174,7 +175,7 @@ pub fn fz_session(data: &[u8], info: &mut FuzzInfo) -> Option<FuzzFailure> {
     let nh = suite.kdf.nh();
     let el: u16 = u.arbitrary().unwrap_or(32);
     let exports = vec![c02::ExportReq { ctx: Bytes(take(&mut u, 16)), len: (el as usize) % (255 * nh + 1) }];
-    let c = c02::Case::Session { sess: sess.clone(), msgs: msgs.clone(), exports };
+    let c = c02::Case::Session { sess: sess.clone(), msgs: msgs.clone(), exports, start: 0 };
     if let Some(f) = run(&c02::P, &c, info) {
         return Some(f);
     }
@@ -192,7 +193,7 @@ pub fn fz_session(data: &[u8], info: &mut FuzzInfo) -> Option<FuzzFailure> {
         faults.push(c14::Fault::Short { keep: s0 });
     }
     faults.retain(|f| *f != c14::Fault::None);
-    let c = c14::Case { sess, pt: m.pt, aad: m.aad, faults, spy: s2 & 0x80 != 0 };
+    let c = c14::Case { sess, pt: m.pt, aad: m.aad, faults, spy: s2 & 0x80 != 0, ctx_pos: if s2 & 0x20 != 0 { Some(u64::MAX - (s0 % 3) as u64) } else { None } };
     run(&c14::P, &c, info)
 }
 
